@@ -1033,6 +1033,12 @@ func (fv *FnV) evalClauseAtPre(st *State, cl *Clause, pos token.Pos, pre *State)
 			}
 		}
 	}
+	if fv.anchorCall != nil {
+		for i, v := range fv.callArgs[fv.anchorCall] {
+			cur[fmt.Sprintf("arg%d", i)] = v
+			old[fmt.Sprintf("arg%d", i)] = v
+		}
+	}
 	scope := fv.prog.Pkg.Scope().Innermost(pos)
 	for _, p := range fv.clauseParams(cl) {
 		if _, ok := cur[p.Name()]; ok {
